@@ -480,11 +480,14 @@ def mainLoop (P : Problem α) (dir : Direction D α) (pr : Params α) (stop : Na
 
 /-- The initial `while (curr->L < L_max && qub_violated(*curr))` loop.
     Returns (iterate, tick, number of backtracks, fuel exhausted). -/
-def initQub (P : Problem α) (pr : Params α) : Nat → Iterate α → Nat → Nat → Iterate α × Nat × Nat × Bool
+def initQub (P : Problem α) (pr : Params α) (stop : Nat → Bool) :
+    Nat → Iterate α → Nat → Nat → Iterate α × Nat × Nat × Bool
   | 0, c, t, b => (c, t, b, true)
   | f + 1, c, t, b =>
+    -- `while (!stop_signal.stop_requested() && curr->L < L_max && qub_violated(*curr))`
+    if stop t then (c, t, b, false) else
     if decide (c.L < pr.Lmax) && qubViolated pr c then
-      initQub P pr f
+      initQub P pr stop f
         (evalCostInProx P (evalProxGradStep P { c with gamma := c.gamma / 2, L := c.L * 2 }))
         (t + 2) (b + 1)
     else (c, t, b, false)
@@ -517,14 +520,14 @@ def initLipschitz (P : Problem α) (pr : Params α) (x0 : Vec α) (garbageV : Ve
 
 /-- Everything before the main loop: Lipschitz estimate, first proximal-gradient step, initial
     quadratic-upper-bound backtracking.  `Sum.inl ticks` = early `NotFinite` return. -/
-def initState (P : Problem α) (d0 : D) (pr : Params α) (x0 : Vec α) (garbageV : Vec α)
+def initState (P : Problem α) (d0 : D) (pr : Params α) (stop : Nat → Bool) (x0 : Vec α) (garbageV : Vec α)
     (garbageS : α) : Nat ⊕ St α D :=
   let cnt := initLipschitz P pr x0 garbageV garbageS
   if !RealLike.isFinite cnt.1.L then .inl cnt.2.2
   else
   let curr := { cnt.1 with gamma := pr.LgammaFactor / cnt.1.L }
   -- First proximal gradient step, then the quadratic upper bound loop
-  let r := initQub P pr pr.lsFuel (evalCostInProx P (evalProxGradStep P curr)) (cnt.2.2 + 2) 0
+  let r := initQub P pr stop pr.lsFuel (evalCostInProx P (evalProxGradStep P curr)) (cnt.2.2 + 2) 0
   .inr { curr := r.1, next := cnt.2.1, prox := blankProx garbageV garbageS, q := garbageV, d := d0,
          tick := r.2.1,
          stats := { stats0 garbageS with stepsizeBacktracks := r.2.2.1 }, k := 0, noProgress := 0,
@@ -533,7 +536,7 @@ def initState (P : Problem α) (d0 : D) (pr : Params α) (x0 : Vec α) (garbageV
 /-- `ZeroFPRSolver::operator()`. `garbage*` is the arbitrary content of never-written storage. -/
 def run (P : Problem α) (dir : Direction D α) (d0 : D) (pr : Params α) (stop : Nat → Bool)
     (oot : Bool) (x0 y Sig errz0 : Vec α) (garbageV : Vec α) (garbageS : α) : Result α D :=
-  match initState P d0 pr x0 garbageV garbageS with
+  match initState P d0 pr stop x0 garbageV garbageS with
   | .inl ticks =>
     { stats := { stats0 garbageS with status := .NotFinite }, dfinal := d0, x := x0, y := y,
       errz := errz0, wrote := false, callbacks := [], ticks := ticks, final := none }
